@@ -69,7 +69,7 @@ theorem step_rotateRight {h : Heap K V} {p l r idx : Nat} {xp xl xr : SNode K V 
       p'.parent = xp.parent ∧ l'.parent = xl.parent ∧ r'.parent = xr.parent ∧
       ∀ j, h'.get j = if j = r then some r' else if j = l then some l' else if j = p then some p' else h.get j := by
   obtain ⟨p', l', r', hm, rp', rl', rr'⟩ := rotateRightNodes_rep rp rl rr hkind hidx hlne hroom
-    (by decide) (by decide) (by decide) (by decide) (by decide) (by decide) (by decide)
+    (by decide) (by decide) (by decide) (by decide) (by decide) (by decide) (by decide) (by decide)
   have hp0 : getNode h.nodes p = some xp := hp
   have hl0 : getNode h.nodes l = some xl := hl
   have hr0 : getNode h.nodes r = some xr := hr
@@ -99,7 +99,7 @@ theorem step_rotateLeft {h : Heap K V} {p l r idx : Nat} {xp xl xr : SNode K V N
       p'.parent = xp.parent ∧ l'.parent = xl.parent ∧ r'.parent = xr.parent ∧
       ∀ j, h'.get j = if j = r then some r' else if j = l then some l' else if j = p then some p' else h.get j := by
   obtain ⟨p', l', r', hm, rp', rl', rr'⟩ := rotateLeftNodes_rep rp rl rr hkind hidx0 hidx hrne hroom
-    (by decide) (by decide) (by decide) (by decide) (by decide)
+    (by decide) (by decide) (by decide) (by decide) (by decide) (by decide) (by decide)
   have hp0 : getNode h.nodes p = some xp := hp
   have hl0 : getNode h.nodes l = some xl := hl
   have hr0 : getNode h.nodes r = some xr := hr
